@@ -1,7 +1,7 @@
 INIT Init
 NEXT Next
 CONSTANTS
-  Part = "listans"
+  Part = "interval"
   Big = FALSE
 INVARIANT LawTablesDescriptor
 INVARIANT LawTablesDefaults
